@@ -9,6 +9,7 @@ for s in tools/*.sh /tmp/combo/run.sh; do sed "s|cd /verif|cd /tmp/verif_snap|" 
 ./matrix2.sh /tmp/seed2facts $R/m2.json > $R/m2.txt 2>&1
 ./matrix2.sh /tmp/seed3facts $R/m3.json > $R/m3.txt 2>&1
 ./matrix2.sh /tmp/seed4facts $R/m4.json > $R/m4.txt 2>&1
+./matrix2.sh /tmp/seed5facts $R/m5.json > $R/m5.txt 2>&1
 ./run.sh > $R/combo.txt 2>&1
 ./refacrun.sh /tmp/refacfacts > $R/rf1.txt 2>&1
 ./refacrun.sh /tmp/refac2facts > $R/rf2.txt 2>&1
